@@ -83,6 +83,8 @@ type unexp5 struct {
 // calls with the same type
 type afterRow struct {
 	Name string `xsel:"a"`
+	Has  bool   `xsel:"a"` // a non-empty node-set is true whatever its text says ("0", "false")
+	HasP *bool  `xsel:"b"`
 	Sub  struct {
 		V string `xsel:"count(*)"`
 	} `xsel:"b"`
@@ -523,7 +525,7 @@ func fixedUnmDoc(rn *Runner) *Doc {
 	tx := func(v string) Event { return Event{Kind: EvText, A: v} }
 	end := Event{Kind: EvEnd}
 	return rn.NewDoc([]Event{st("r"),
-		st("g"), st("x"), st("a"), tx("1"), end, st("b"), st("k"), end, end, end, st("x"), st("a"), tx("2"), end, st("b"), end, end, end,
+		st("g"), st("x"), st("a"), tx("0"), end, st("b"), st("k"), end, end, end, st("x"), st("a"), tx("false"), end, st("b"), tx(" 0 "), end, end, end,
 		st("h"), st("x"), st("a"), tx("3"), end, st("b"), end, end, st("x"), st("a"), tx("4"), end, end, end,
 		end})
 }
